@@ -87,6 +87,7 @@ type Obligation struct {
 	File     string
 	All      map[string]string
 	NoLemmas bool // lemma proofs must not assume the lemma table
+	Uses     []string
 }
 
 type modelVar struct {
@@ -430,6 +431,9 @@ func (g *FnGen) addObl(s *State, kind, name, src, where, cond string) {
 	}
 	g.seqN++
 	o := &Obligation{Name: g.c.fnKey(g.fn) + "#" + name, Fn: g.c.fnKey(g.fn), Kind: kind, Src: src, Where: where}
+	if g.fc != nil {
+		o.Uses = g.fc.Uses
+	}
 	var b strings.Builder
 	b.WriteString(strings.Join(g.decls, "\n"))
 	b.WriteString("\n")
